@@ -1,11 +1,16 @@
 #!/bin/sh
-# tools/seed_eval.sh <patch.diff> <Cxx> [tier] : apply a seeded change to /repo, run the check, undo it.
+# tools/seed_eval.sh <patch.diff> <Cxx> [tier] : run a check against a seeded change.
+# The change is applied to a scratch worktree of /repo (never to /repo itself while other checks may be
+# running); the check reads it through VERIF_REPO and writes evidence/logs under out/seed_eval/.
 set -u
 PATCH="$1"; PROP="$2"; TIER="${3:-quick}"
-cd /repo || exit 9
-if [ -n "$(git status --porcelain --untracked-files=no)" ]; then echo "REPO DIRTY - refusing"; exit 9; fi
-git apply "$PATCH" || { echo "patch does not apply"; exit 9; }
-cd /verif && ./check "$PROP" --tier "$TIER"; rc=$?
-git -C /repo checkout -- .
-echo "seed_eval: $PATCH $PROP rc=$rc"
+SR=/var/tmp/seedrepo.$$
+git -C /repo worktree add -q --detach "$SR" HEAD || exit 9
+cp /repo/Cargo.lock "$SR/Cargo.lock"
+cd "$SR" && git apply "$PATCH" || { echo "patch does not apply"; git -C /repo worktree remove --force "$SR"; exit 9; }
+cd /verif
+mkdir -p out/seed_eval
+VERIF_REPO="$SR" VERIF_EVIDENCE_DIR=/verif/out/seed_eval/evidence VERIF_OUT_DIR=/verif/out/seed_eval ./check "$PROP" --tier "$TIER"; rc=$?
+git -C /repo worktree remove --force "$SR"
+echo "seed_eval: $PATCH $PROP tier=$TIER rc=$rc"
 exit $rc
